@@ -236,7 +236,7 @@ pub fn c13_q_container_kinds() {
 #[kani::proof]
 #[kani::unwind(12)]
 #[kani::stub(alloc::fmt::format, fmt_stub)]
-pub fn c13_t_array1_u64() {
+pub fn c13_x_array1_u64() {
     let x: u64 = kani::any();
     let mk = || J::Array(vec![J::Number(Number::from(x))]);
     let same = |j: &J| match j {
